@@ -371,6 +371,71 @@ Section C03linezsweep.
   Proof. exact (gauss_seidel_z_frame ex ey ez sx sy sz eta_x eta_y eta_z zeta hx hy hz nu nx ny nz). Qed.
 End C03linezsweep.
 
+(* --- the whole point smoother is LINEAR in (field, source); last block exact -- *)
+(* (Proofs/GSAffine.v; relational three-run fold induction, peeling of the last
+   iteration of the four loops.)  Affinity -- al + be = 1 -- is the special case;
+   the proof never needs it.  [last_node nu n] = 1 if nu is odd, n-1 otherwise:
+   core.gauss_seidel flips iback BEFORE each sweep, so sweep 1, 3, .. run from the
+   high indices down to node (1,1,1) (the docstring says the opposite). *)
+From V Require Import Proofs.GSAffine.
+Section C03affine.
+  Context {F : Type} {O : FOps F}.
+  Hypothesis Fth : field_theory F0 F1 Fadd Fmul Fsub Fopp Fdiv Finv (@eq F).
+  Hypothesis two_nz : (1 + 1)%F <> 0%F.
+  Variables (eta_x eta_y eta_z zeta : Z -> Z -> Z -> F).
+  Variables (hx hy hz : Z -> F).
+  Hypothesis hx_nz : forall i, hx i <> 0%F.
+  Hypothesis hy_nz : forall i, hy i <> 0%F.
+  Hypothesis hz_nz : forall i, hz i <> 0%F.
+  Variables (nu nx ny nz : Z).
+
+  Theorem point_smoother_is_linear_in_field_and_source
+      (al be : F) (emx emy emz e1x e1y e1z e2x e2y e2z smx smy smz s1x s1y s1z s2x s2y s2z : Z -> Z -> Z -> F) :
+    (forall i j l, emx i j l = (al * e1x i j l + be * e2x i j l)%F) ->
+    (forall i j l, emy i j l = (al * e1y i j l + be * e2y i j l)%F) ->
+    (forall i j l, emz i j l = (al * e1z i j l + be * e2z i j l)%F) ->
+    (forall i j l, smx i j l = (al * s1x i j l + be * s2x i j l)%F) ->
+    (forall i j l, smy i j l = (al * s1y i j l + be * s2y i j l)%F) ->
+    (forall i j l, smz i j l = (al * s1z i j l + be * s2z i j l)%F) ->
+    (forall ix iy iz, interior nx ny nz ix iy iz -> forall j, 0 <= j < 6 ->
+       pivot 6 (fst (gs_sys e1x e1y e1z s1x s1y s1z eta_x eta_y eta_z zeta hx hy hz nu nx nx ny ny nz nz
+                            (fun _ => 0%F) ix iy iz)) j <> 0%F) ->
+    let rm := gauss_seidel nx ny nz emx emy emz smx smy smz eta_x eta_y eta_z zeta hx hy hz nu in
+    let r1 := gauss_seidel nx ny nz e1x e1y e1z s1x s1y s1z eta_x eta_y eta_z zeta hx hy hz nu in
+    let r2 := gauss_seidel nx ny nz e2x e2y e2z s2x s2y s2z eta_x eta_y eta_z zeta hx hy hz nu in
+    forall i j l,
+      fst (fst rm) i j l = (al * fst (fst r1) i j l + be * fst (fst r2) i j l)%F /\
+      snd (fst rm) i j l = (al * snd (fst r1) i j l + be * snd (fst r2) i j l)%F /\
+      snd rm i j l = (al * snd r1 i j l + be * snd r2 i j l)%F.
+  Proof.
+    intros Hex Hey Hez Hsx Hsy Hsz Hpiv.
+    exact (gauss_seidel_linear Fth two_nz al be emx emy emz e1x e1y e1z e2x e2y e2z
+             smx smy smz s1x s1y s1z s2x s2y s2z eta_x eta_y eta_z zeta hx hy hz
+             hx_nz hy_nz hz_nz nu nx ny nz Hex Hey Hez Hsx Hsy Hsz Hpiv).
+  Qed.
+
+  Theorem block_matrix_independent_of_field_and_source
+      (fx fy fz gx gy gz sx sy sz tx ty tz : Z -> Z -> Z -> F) (a1 a2 : Z -> F) lhx lhy lhz ix iy iz :
+    fst (gs_sys fx fy fz sx sy sz eta_x eta_y eta_z zeta hx hy hz nu lhx nx lhy ny lhz nz a1 ix iy iz)
+    = fst (gs_sys gx gy gz tx ty tz eta_x eta_y eta_z zeta hx hy hz nu lhx nx lhy ny lhz nz a2 ix iy iz).
+  Proof. exact (sys_matrix_indep_src fx fy fz gx gy gz sx sy sz tx ty tz eta_x eta_y eta_z zeta
+                  hx hy hz nu lhx nx lhy ny lhz nz a1 a2 ix iy iz). Qed.
+
+  Variables (ex ey ez sx sy sz : Z -> Z -> Z -> F).
+  Theorem point_smoother_last_block_is_exact :
+    1 <= nu -> 2 <= nx -> 2 <= ny -> 2 <= nz ->
+    (forall ix iy iz, interior nx ny nz ix iy iz -> forall j, 0 <= j < 6 ->
+       pivot 6 (fst (gs_sys ex ey ez sx sy sz eta_x eta_y eta_z zeta hx hy hz nu nx nx ny ny nz nz
+                            (fun _ => 0%F) ix iy iz)) j <> 0%F) ->
+    let ix := last_node nu nx in let iy := last_node nu ny in let iz := last_node nu nz in
+    let r := gauss_seidel nx ny nz ex ey ez sx sy sz eta_x eta_y eta_z zeta hx hy hz nu in
+    forall k, 0 <= k < 6 ->
+      edge_res (fst (fst r)) (snd (fst r)) (snd r) sx sy sz eta_x eta_y eta_z zeta hx hy hz
+        (cur (fst (fst r)) (snd (fst r)) (snd r) ix iy iz) ix iy iz k = 0%F.
+  Proof. exact (gauss_seidel_last_block_exact Fth two_nz ex ey ez sx sy sz eta_x eta_y eta_z zeta
+                  hx hy hz hx_nz hy_nz hz_nz nu nx ny nz). Qed.
+End C03affine.
+
 Print Assumptions solve_correct_banded.
 Print Assumptions solve_unique_banded.
 Print Assumptions solve_is_linear_in_rhs.
@@ -393,3 +458,6 @@ Print Assumptions line_z_system_is_the_residual_system.
 Print Assumptions line_z_equations_hold_afterwards.
 Print Assumptions line_z_smoother_leaves_exact_solution_unchanged.
 Print Assumptions line_z_smoother_never_writes_boundary.
+Print Assumptions point_smoother_is_linear_in_field_and_source.
+Print Assumptions block_matrix_independent_of_field_and_source.
+Print Assumptions point_smoother_last_block_is_exact.
